@@ -20,6 +20,7 @@ pub mod hash;
 pub mod net;
 pub mod rand;
 pub mod sched;
+pub mod signal;
 pub mod stream;
 pub mod sync;
 pub mod thread;
@@ -399,6 +400,7 @@ pub fn start(cfg: WorldCfg) {
     #[cfg(feature = "tokio")]
     tokio_net::reset();
     thread::reset();
+    signal::reset();
     CLOCK_TASK.with(|c| c.set(None));
     if let Some(old) = CLOCK_HANDLE.with(|c| c.borrow_mut().take()) {
         std::mem::forget(old);
